@@ -363,7 +363,7 @@ fn seq_case(rep: &mut Report, stderr_target: bool) {
         match child.try_wait() {
             Ok(Some(_)) => break,
             Ok(None) => {
-                if start.elapsed() > Duration::from_secs(20) {
+                if start.elapsed() > Duration::from_secs(180) {
                     let _ = child.kill();
                     let _ = child.wait();
                     rep.inconclusive("sequence child timed out");
@@ -491,7 +491,7 @@ fn console_case(rep: &mut Report, idx: u64) {
         match child.try_wait() {
             Ok(Some(st)) => break st.code(),
             Ok(None) => {
-                if start.elapsed() > Duration::from_secs(20) {
+                if start.elapsed() > Duration::from_secs(180) {
                     let _ = child.kill();
                     let _ = child.wait();
                     rep.inconclusive("console child timed out (watchdog)");
